@@ -290,3 +290,21 @@ META['C13'] = dict(
     technique='runtime trace monitoring under the race detector: call log joined with recorded ARP frames on virtual time (synctest), real spoof loops and tickers',
     level_text='Exploration: 600 (quick) / 3*10^4 (thorough) hunt histories; every ARP frame the handler emits is classified by the reference decoder and checked against the hunt list at its sequence point, the 6 s cycle, the corrective packet bound and the reply rules; built with -race.',
     level_note='Bounded liveness only (one cycle on the virtual clock). Trusted base: refdec ARP decoding and the quiescent stepping of the bubble.')
+
+PROPS['C14'] = dict(
+    runs=[run('race', race=True)], shards=16, watchdog=True, level='exploration',
+    rule=('(hunt) histories of StartHunt/StopHunt/Close over a link-local target, an address-less target, a second link-local target, an IPv4 target and a global target at PRNG-chosen virtual '
+          'instants, interleaved with router advertisements from two routers (each delivered 4x because the handler samples every 4th RA) and neighbour solicitations; the real Handler6 with its '
+          'real 2.0-2.8 s spoof timers runs in a synctest bubble under the race detector; every forged NA (TLLA = our MAC, target = a router) must carry override and hop limit 255, go only to a MAC '
+          'hunted at that sequence point, only for routers learned by then, never after StopHunt/Close, at most one loop per MAC (>= 2 s between frames unless an RA woke the loop), and a hunted MAC '
+          'must get a forged NA for every learned router within one period; StartHunt must reject IPv4 and ignore global targets. (learning) RAs built from generated option lists (prefix x0..3, '
+          'MTU, RDNSS 1..3, DNSSL 1..3 domains, route information /0../128, source LLA, unknown types, random order) through Parse -> ProcessPacket: FindRouter/LANRouters compared field by field '
+          'with refdec.DecodeRA. Non-trivial = a hunt history with forged NAs / a compared RA; distinct = forged-count bucket / option-set shape'),
+    assumptions=['refdec NDP codec is the trusted oracle', 'each single-valued option appears at most once per RA', 'quiescent stepping of the bubble makes "in the hunt list at that point" exact'],
+    min_obs={'quick': {'forged_nas': 1500, 'ra_compared': 3000, 'hunt_spans': 500}, 'thorough': {'forged_nas': 1500}},
+    timeout={'quick': 1200, 'thorough': 6*3600},
+)
+META['C14'] = dict(
+    technique='runtime trace monitoring under the race detector on virtual time (hunt confinement) + differential monitoring of the learned router table against refdec',
+    level_text='Exploration: 600 (quick) / 3*10^4 (thorough) hunt histories with the real spoof loops, and 5*10^3 / 5*10^5 generated router advertisements whose recorded router entry is compared field by field with an independent decoder.',
+    level_note='Bounded liveness only (one spoof period on the virtual clock). Trusted base: refdec and the bubble stepping.')
